@@ -38,7 +38,7 @@ def run(ctx):
     rng = random.Random(ctx.seed * 263 + 4)
     ftdiff.run_project(ctx, rng, 100 * k)
     n = 2 if ctx.tier == "quick" else 3
-    recs = pool.collect(ctx, [dict(gen="g4", count=140 * k, modes=["plain"], nexec=n)])
+    recs = pool.collect(ctx, [dict(gen="g4", count=140 * k, modes=["plain"], nexec=n), dict(gen="g4c", count=25 * k, modes=["plain"], nexec=n)])
     c02.check_records(ctx, recs, classify=classify, need_reference=False)
     # which fraction of the sampled specifications lies inside the claimed class
     inside = sum(1 for r in recs if r["ok"] and not classify(r["case"], r))
